@@ -78,6 +78,16 @@ let () = iter_lines (fun line ->
           Printf.printf "%s | %s\n" body g
         | Stuck -> print_endline "Stuck" | Fuel -> print_endline "Fuel" | Exn -> print_endline "Exn")
      | Stuck -> print_endline "Stuck(count)" | Fuel -> print_endline "Fuel(count)" | Exn -> print_endline "Exn")
+  | "GS" :: v :: n :: ws ->
+    (* the GENERATED pvIsSorted *)
+    let coarse = (v = "P" || v = "H") in
+    let n = int_of_string n in
+    let (hs, ids, _) = parse_pairs n ws in
+    let hash zi = let i = int_of_z zi in if i >= 0 && i < n then hs.(i) else z_of_int 0 in
+    let item zi = zi in
+    let cls s = if coarse then string_of_int (int_of_string s / 2) else s in
+    let eqf za zb = let a = int_of_z za and b = int_of_z zb in cls ids.(a) = cls ids.(b) in
+    print_endline (outcome_str (fun b -> if b then "1" else "0") (Gen_IsSorted.pvIsSorted eqf (nat_of_int (n + 3)) item hash (z_of_int 0) (z_of_int n)))
   | "GGRP" :: n :: ws ->
     (* the GENERATED pvGroup on an array of item ids (equalFunc = same id): final arrangement *)
     let n = int_of_string n in
